@@ -393,6 +393,7 @@ with merge_single (fuel : nat) (st : stacks) (m1 m2 : marker) (is_multi : bool) 
          || (String.eqb n1 "python_full_version" && String.eqb n2 "python_version")
       then merge_python f st m1 m2 is_multi
       else if negb (String.eqb n1 n2) then Ok None
+      else if (match c1, c2 with CG _, CV _ | CV _, CG _ => true | _, _ => false end) then Ok None   (* platform_release, D45 *)
       else
         do rc <- match c1, c2 with
                  | CG a, CG b => do r <- (if is_multi then g_intersect a b else g_union a b); Ok (CG r)
@@ -516,5 +517,6 @@ with only (fuel : nat) (st : stacks) (names : list string) (m : marker) {struct 
   end.
 End Alg.
 
-Definition FUEL : nat := 400.
+(* depth of the mutual recursion, not a step count: a union of three two-clause groups already needs more than 400 *)
+Definition FUEL : nat := 4000.
 Definition ST0 : stacks := mkSt [] [].
